@@ -318,22 +318,36 @@ def all_set(v, n: int):
     return v == z3.BitVecVal(mask(n), n)
 
 
+# provenance of Int terms produced from bit-vectors: lets from_int() undo to_uint()/to_sint() exactly
+# (z3 does not simplify Int2BV over the signed If-form and answers `unknown` beyond ~8 bits)
+_PROV = {}
+
+
 def to_uint(v, n: int):
     if not is_bv(v):
         return v
-    return z3.BV2Int(v, False)
+    t = z3.BV2Int(v, False)
+    _PROV[t.get_id()] = (t, v, n)
+    return t
 
 
 def to_sint(v, n: int):
     if not is_bv(v):
         return v - (1 << n) if (v >> (n - 1)) & 1 else v
-    return z3.BV2Int(v, True)
+    t = z3.BV2Int(v, True)
+    _PROV[t.get_id()] = (t, v, n)
+    return t
 
 
 def from_int(i, n: int):
     """i python int or z3 Int term, already range-checked; two's complement into n bits."""
     if is_conc(i):
         return i & mask(n)
+    hit = _PROV.get(i.get_id())
+    if hit is not None and hit[2] == n and z3.eq(hit[0], i):
+        return hit[1]
+    if len(_PROV) > 4096:
+        _PROV.clear()
     return z3.Int2BV(i, n)
 
 
